@@ -63,6 +63,14 @@ fn meta_line(path: &str, v: &Voice, e: &Engine) -> String {
     // stage / log-gain are not readable through getters: observe them through a LSP-vs-MCP synthesis elsewhere (C13);
     push_f(&mut line, c.get_volume());
     push_f(&mut line, c.get_speed());
+    // gamma stage and log-gain flag have no getter; they are public through `Debug` (a field missing from the debug text is
+    // reported as "unknown" and not compared)
+    let dbg = format!("{:?}", c);
+    let field = |name: &str| -> String {
+        dbg.find(&format!("{name}: ")).map(|i| dbg[i + name.len() + 2..].chars().take_while(|ch| ch.is_alphanumeric() || *ch == '.' || *ch == '-').collect()).unwrap_or_else(|| "unknown".to_string())
+    };
+    push_s(&mut line, &esc(&field("stage")));
+    push_s(&mut line, &esc(&field("use_log_gain")));
     line
 }
 
